@@ -25,6 +25,29 @@ AREAS = [
  ("A19", ["rust-sdk/core/src/math/"]),
  ("A20", ["programs/whirlpool/src/manager/whirlpool_manager.rs", "programs/whirlpool/src/manager/position_manager.rs", "programs/whirlpool/src/manager/liquidity_manager.rs", "programs/whirlpool/src/instructions/swap.rs", "programs/whirlpool/src/instructions/v2/swap.rs", "programs/whirlpool/src/instructions/two_hop_swap.rs", "programs/whirlpool/src/instructions/v2/two_hop_swap.rs"]),
 ]
+
+AREAS9 = [
+ ("B01", ["programs/whirlpool/src/lib.rs", "programs/whirlpool/src/entrypoint.rs"]),
+ ("B02", ["programs/whirlpool/src/pinocchio/cpi/", "programs/whirlpool/src/pinocchio/events.rs", "programs/whirlpool/src/events.rs"]),
+ ("B03", ["programs/whirlpool/src/pinocchio/ported/manager_liquidity_manager.rs"]),
+ ("B04", ["programs/whirlpool/src/pinocchio/ported/position.rs", "programs/whirlpool/src/pinocchio/ported/manager_tick_array_manager.rs", "programs/whirlpool/src/pinocchio/constants/"]),
+ ("B05", ["programs/whirlpool/src/pinocchio/state/whirlpool/tick_array/"]),
+ ("B06", ["programs/whirlpool/src/state/dynamic_tick_array.rs", "programs/whirlpool/src/state/fixed_tick_array.rs", "programs/whirlpool/src/state/tick_array.rs"]),
+ ("B07", ["programs/whirlpool/src/util/sparse_swap.rs", "programs/whirlpool/src/util/swap_tick_sequence.rs"]),
+ ("B08", ["programs/whirlpool/src/manager/swap_manager.rs", "programs/whirlpool/src/math/swap_math.rs"]),
+ ("B09", ["programs/whirlpool/src/manager/tick_manager.rs", "programs/whirlpool/src/manager/position_manager.rs"]),
+ ("B10", ["programs/whirlpool/src/math/token_math.rs", "programs/whirlpool/src/math/liquidity_math.rs", "programs/whirlpool/src/math/bit_math.rs", "programs/whirlpool/src/math/u256_math.rs"]),
+ ("B11", ["programs/whirlpool/src/instructions/set_fee_rate.rs", "programs/whirlpool/src/instructions/set_protocol_fee_rate.rs", "programs/whirlpool/src/instructions/set_default_fee_rate.rs", "programs/whirlpool/src/instructions/set_default_protocol_fee_rate.rs", "programs/whirlpool/src/instructions/set_fee_authority.rs", "programs/whirlpool/src/instructions/set_collect_protocol_fees_authority.rs", "programs/whirlpool/src/instructions/set_reward_authority.rs", "programs/whirlpool/src/instructions/set_reward_authority_by_super_authority.rs", "programs/whirlpool/src/instructions/set_reward_emissions_super_authority.rs", "programs/whirlpool/src/instructions/set_config_feature_flag.rs", "programs/whirlpool/src/instructions/migrate_repurpose_reward_authority_space.rs"]),
+ ("B12", ["programs/whirlpool/src/instructions/v2/initialize_token_badge.rs", "programs/whirlpool/src/instructions/v2/delete_token_badge.rs", "programs/whirlpool/src/instructions/v2/set_token_badge_attribute.rs", "programs/whirlpool/src/instructions/v2/set_token_badge_authority.rs", "programs/whirlpool/src/instructions/v2/initialize_config_extension.rs", "programs/whirlpool/src/instructions/v2/set_config_extension_authority.rs", "programs/whirlpool/src/state/token_badge.rs", "programs/whirlpool/src/state/config_extension.rs"]),
+ ("B13", ["programs/whirlpool/src/instructions/swap.rs", "programs/whirlpool/src/instructions/v2/swap.rs"]),
+ ("B14", ["programs/whirlpool/src/instructions/two_hop_swap.rs", "programs/whirlpool/src/instructions/v2/two_hop_swap.rs"]),
+ ("B15", ["programs/whirlpool/src/instructions/open_bundled_position.rs", "programs/whirlpool/src/instructions/initialize_position_bundle.rs", "programs/whirlpool/src/instructions/delete_position_bundle.rs", "programs/whirlpool/src/util/token.rs"]),
+ ("B16", ["programs/whirlpool/src/instructions/lock_position.rs", "programs/whirlpool/src/instructions/close_position_with_token_extensions.rs", "programs/whirlpool/src/util/token_2022.rs"]),
+ ("B17", ["programs/whirlpool/src/manager/whirlpool_manager.rs", "programs/whirlpool/src/manager/liquidity_manager.rs", "programs/whirlpool/src/manager/tick_array_manager.rs"]),
+ ("B18", ["programs/whirlpool/src/state/oracle.rs", "programs/whirlpool/src/state/adaptive_fee_tier.rs", "programs/whirlpool/src/instructions/adaptive_fee/set_adaptive_fee_constants.rs", "programs/whirlpool/src/instructions/adaptive_fee/set_fee_rate_by_delegated_fee_authority.rs"]),
+ ("B19", ["rust-sdk/core/src/quote/liquidity.rs", "rust-sdk/core/src/math/token.rs", "rust-sdk/core/src/math/tick.rs"]),
+ ("B20", ["rust-sdk/core/src/quote/swap.rs", "rust-sdk/core/src/math/tick_array.rs", "rust-sdk/core/src/math/adaptive_fee.rs"]),
+]
 def main():
     tag, outdir = sys.argv[1], sys.argv[2]
     os.makedirs(outdir, exist_ok=True)
@@ -32,7 +55,7 @@ def main():
     brief = open(os.path.join(root, "notes/SEED_BRIEF.md")).read().split("\n---\n", 1)[1]
     props = [json.loads(l) for l in open(os.path.join(root, "properties.jsonl"))]
     metas = []
-    for d in sorted(glob.glob(os.path.join(root, "seeded", "C*"))):
+    for d in sorted(glob.glob(os.path.join(root, "seeded", "[CA]*"))):
         try:
             m = json.load(open(os.path.join(d, "meta.json")))
         except Exception:
@@ -42,7 +65,8 @@ def main():
             fs = [fs]
         metas.append((fs, str(m.get("breaks", ""))[:300]))
     plist = "\n".join(f"* {p['id']} — {p['title']}. {p['statement']}" for p in props)
-    for aid, paths in AREAS:
+    areas = AREAS9 if tag.startswith('seed9') else AREAS
+    for aid, paths in areas:
         used = [f"* [{', '.join(fs)}] {b}" for fs, b in metas if any(any(str(f).startswith(p) or p.startswith(str(f)) for p in paths) for f in fs)]
         d = f"/tmp/{tag}_{aid}"
         text = ("This time you are not given one property but a PART OF THE SOURCE TREE. The repository is expected to satisfy all of the "
